@@ -103,9 +103,13 @@ func (m *bcModel) first() uint32 {
 	return hs[0]
 }
 
-// addKind names where a new height lies relative to the heights the model holds.
-func (m *bcModel) addKind(h uint32) string {
-	hs := m.heights()
+// addKind names where a new height lies relative to the height slots the cache holds (the
+// slots, read through the tag-only dump, may include heights whose blocks are all gone).
+func addKind(slots []network.VerifHeightGroup, h uint32) string {
+	hs := make([]uint32, 0, len(slots))
+	for _, g := range slots {
+		hs = append(hs, g.Height)
+	}
 	if len(hs) == 0 {
 		return "add-to-empty"
 	}
@@ -139,13 +143,25 @@ func dumpBlockCache(bc *network.BlockCache) []visit {
 }
 
 // compareBlockCache returns the clauses that fail (order, lost, duplicate, not-removed, size).
-func compareBlockCache(m *bcModel, vis []visit, size int) (clauses []string, detail string) {
+// Order is judged on what Iterate visits and on the height slots themselves (the cache's
+// state is "blocks grouped by height, ascending": a slot out of place that happens to be
+// empty or last shows up only operations later, in Clear / Remove / the next Add).
+func compareBlockCache(m *bcModel, vis []visit, size int, slots []network.VerifHeightGroup) (clauses []string, detail string) {
 	var d []string
 	for i := 1; i < len(vis); i++ {
 		if vis[i].h < vis[i-1].h {
 			clauses = append(clauses, "order")
 			d = append(d, fmt.Sprintf("iteration visits height %d after height %d", vis[i].h, vis[i-1].h))
 			break
+		}
+	}
+	if len(clauses) == 0 {
+		for i := 1; i < len(slots); i++ {
+			if slots[i].Height <= slots[i-1].Height {
+				clauses = append(clauses, "order")
+				d = append(d, fmt.Sprintf("the slot of height %d is stored behind the slot of height %d", slots[i].Height, slots[i-1].Height))
+				break
+			}
 		}
 	}
 	seen := map[int]int{}
@@ -207,14 +223,12 @@ func heightsOf(vis []visit) []uint32 {
 func runBlockCacheCase(c *run.Ctx, vs *violSink, cs *CacheCase) bool {
 	bc := network.NewBlockCache()
 	m := &bcModel{byH: map[uint32]map[int]bool{}}
-	heightOf := map[int]uint32{}
 	firstAgrees := true
 	for i, op := range cs.Ops {
 		kind := op.Op
 		switch op.Op {
 		case "add":
-			kind = m.addKind(op.H)
-			heightOf[op.ID] = op.H
+			kind = addKind(bc.VerifGroups(), op.H)
 			bc.Add(fakeBlock(op.H, op.ID))
 			if m.byH[op.H] == nil {
 				m.byH[op.H] = map[int]bool{}
@@ -246,7 +260,7 @@ func runBlockCacheCase(c *run.Ctx, vs *violSink, cs *CacheCase) bool {
 				return take[int(b.Time())]
 			})
 			// the consuming pass itself must visit exactly the model's content, ascending
-			if cl, det := compareBlockCache(m, vis, m.size()); len(cl) > 0 {
+			if cl, det := compareBlockCache(m, vis, m.size(), nil); len(cl) > 0 {
 				for _, x := range cl {
 					vs.viol("C20/block-cache:"+x+":iterate", fmt.Sprintf("step %d (consuming iterate): %s; visited heights %v, model heights %v", i, det, heightsOf(vis), m.heights()), cs)
 				}
@@ -269,7 +283,8 @@ func runBlockCacheCase(c *run.Ctx, vs *violSink, cs *CacheCase) bool {
 		c.Seen("cache_block_op_kinds", kind)
 		vis := dumpBlockCache(bc)
 		c.Stat("cache_block_reads_compared", int64(len(vis))+2)
-		if cl, det := compareBlockCache(m, vis, bc.Size()); len(cl) > 0 {
+		slots := bc.VerifGroups()
+		if cl, det := compareBlockCache(m, vis, bc.Size(), slots); len(cl) > 0 {
 			for _, x := range cl {
 				vs.viol("C20/block-cache:"+x+":"+kind, fmt.Sprintf("step %d (%s height %d): %s; iteration heights %v, model heights %v", i, op.Op, op.H, det, heightsOf(vis), m.heights()), cs)
 			}
@@ -278,13 +293,13 @@ func runBlockCacheCase(c *run.Ctx, vs *violSink, cs *CacheCase) bool {
 		fh := bc.FirstHeight()
 		if fh != m.first() {
 			if firstAgrees {
-				empty := ""
-				for _, g := range bc.VerifGroups() {
+				mech, empty := kind, ""
+				for _, g := range slots {
 					if g.Height == fh && len(g.Hashes) == 0 {
-						empty = " (the cache keeps an empty slot for that height)"
+						mech, empty = "empty-slot-kept", " (the cache still keeps a slot for that height although a consuming Iterate took its last block)"
 					}
 				}
-				vs.viol("C20/block-cache:first-height:"+kind, fmt.Sprintf("step %d (%s): FirstHeight() = %d, lowest cached height is %d%s", i, op.Op, fh, m.first(), empty), cs)
+				vs.viol("C20/block-cache:first-height:"+mech, fmt.Sprintf("step %d (%s): FirstHeight() = %d, lowest cached height is %d%s", i, op.Op, fh, m.first(), empty), cs)
 			}
 			firstAgrees = false
 		} else {
@@ -299,7 +314,7 @@ func genBlockCacheCase(r *run.Rng) *CacheCase {
 	cs := &CacheCase{Kind: "block-cache"}
 	n := r.Range(4, 40)
 	span := uint32(r.Range(6, 40))
-	base := uint32(r.Range(1, 50))
+	base := uint32(r.Range(3, 50))
 	nextID := 1
 	type live struct {
 		id int
@@ -458,7 +473,7 @@ func genConfirmCacheCase(r *run.Rng) *CacheCase {
 	cs := &CacheCase{Kind: "confirm-cache"}
 	n := r.Range(4, 40)
 	span := r.Range(3, 12)
-	base := uint32(r.Range(1, 50))
+	base := uint32(r.Range(3, 50))
 	type blk struct {
 		h  uint32
 		id int
@@ -550,7 +565,7 @@ func runOverflowCase(c *run.Ctx, vs *violSink, cs *CacheCase) {
 		if size > 10240 {
 			vs.viol("C20/"+what+":unbounded", fmt.Sprintf("%d distinct heights added, the cache holds %d entries (limit 10240)", n, size), cs)
 		}
-	case <-time.After(20 * time.Second):
+	case <-time.After(6 * time.Second):
 		buf := make([]byte, 1<<22)
 		buf = buf[:runtime.Stack(buf, true)]
 		self := false
